@@ -50,6 +50,9 @@ COMPOSITES = {
     "default-omitted": {"params": [SID, V("a", U8, default=7), V("b", U8), TAIL], "omit": ["a"]},
     "physconst-reserved": {"params": [SID, dict(kind="physconst", name="pc", dop=U8, value=0x42),
                                       dict(kind="reserved", name="rsv", bl=12), V("a", U8), TAIL]},
+    "default-in-structure": {"params": [SID, V("st", S([V("level", U8, default=3), V("mode", U8),
+                                                        C("k", 0x11), dict(kind="reserved", name="r", bl=8)])),
+                                        TAIL]},
     "default-supplied": {"params": [SID, V("a", U8, default=7), V("b", S8, default=-3), TAIL]},
     "reserved-bitpos": {"params": [SID, dict(kind="reserved", name="r1", bl=6, bitpos=4), V("a", U8),
                                    dict(kind="reserved", name="r2", bl=12, bitpos=5), V("b", U8),
@@ -180,6 +183,10 @@ COMPOSITES = {
         V("x", U8), dict(kind="lengthkey", name="lk", id="LK5", dop=U8)])),
         V("data", dict(dt="A_UINT32", dct="paramlen", length_key="LK5")), TAIL],
         "lengths": [8, 16]},
+    # a signed length key
+    "length-key-signed": {"params": [SID, dict(kind="lengthkey", name="lk", id="LK7", dop=S8),
+                                     V("data", dict(dt="A_UINT32", dct="paramlen", length_key="LK7")), TAIL],
+                          "lengths": [8, 16]},
     "length-key-implicit": {"params": [SID, dict(kind="lengthkey", name="lk", id="LK2", dop=U8),
                                        V("data", dict(dt="A_UINT32", dct="paramlen", length_key="LK2")),
                                        TAIL], "lengths": [None]},
@@ -877,6 +884,21 @@ def _run_composite(sx, cfg, env, obj, spec, prop, shape, vals, renv, kwargs):
                           if (p["kind"] in ("value", "tablestruct") and p.get("default") is None) or
                           (p["kind"] == "system" and p["sysparam"] not in ODX_SYSPARAMS))
         sx.require(req_names == want_req, "required-parameters-are-the-value-parameters-without-default")
+        # the same views on nested structures: free = what a caller may set, required = the free
+        # ones without default
+        for prm in spec["params"]:
+            d = prm.get("dop") or {}
+            if prm["kind"] == "value" and d.get("complex") == "structure":
+                st = obj.parameters[prm["name"]].dop
+                settable = ("value", "lengthkey", "tablekey", "tablestruct", "system")
+                want_free = sorted(p["name"] for p in d["params"] if p["kind"] in settable)
+                want_r = sorted(p["name"] for p in d["params"]
+                                if (p["kind"] in ("value", "tablestruct") and p.get("default") is None) or
+                                (p["kind"] == "system" and p["sysparam"] not in ODX_SYSPARAMS))
+                sx.require(sorted(p.short_name for p in st.free_parameters) == want_free,
+                           "free-parameters-of-a-structure-are-the-settable-ones")
+                sx.require(sorted(p.short_name for p in st.required_parameters) == want_r,
+                           "required-parameters-of-a-structure-are-those-without-default")
 
 
 # ASAM ODX 2.2, 7.3.5.4 table 5: the SYSPARAM names a tester must know (spelled exactly so)
